@@ -156,6 +156,7 @@ class Canon:
             self.end_element_lets(body)
             self.if_let_get(body)
             self.if_let_try_from(body)
+            self.sin_cos_lets(body)
             self.split_tuple_let_else(body)
             self.let_else(body)
             self.flatten_blocks(body)
@@ -1716,6 +1717,30 @@ class Canon:
                 changed = True
                 self.stats["end_element_lets"] = self.stats.get("end_element_lets", 0) + 1
             if changed:
+                blk["stmts"] = out
+
+    def sin_cos_lets(self, body):
+        """`let (s, c) = X.sin_cos();` (X a pure f64 expression)  ->  `let s = X.sin(); let c = X.cos();`"""
+        for blk in [n for n in _walk(body) if n.get("k") == "Block"]:
+            out, ch = [], False
+            for st in blk.get("stmts", []):
+                init = _strip(st.get("init") or {}) if st.get("k") == "Let" else {}
+                pat = st.get("pat", {}) if st.get("k") == "Let" else {}
+                if pat.get("k") == "Tuple" and len(pat.get("ps", [])) == 2 and all(q.get("k") == "Bind" for q in pat["ps"]) and init.get("k") == "MethodCall" and \
+                        init.get("name") == "sin_cos" and str(init.get("fn")) in ("f64::sin_cos", "f32::sin_cos") and not init.get("args") and self._pure(init["recv"]):
+                    sp = st.get("sp") or [0, 0, 0, 0]
+                    for k_, (q, nm) in enumerate(zip(pat["ps"], ("sin", "cos"))):
+                        call = {"k": "MethodCall", "name": nm, "fn": str(init["fn"]).replace("sin_cos", nm), "fnargs": str(init.get("fnargs", "")).replace("sin_cos", nm), "targs": [], "fn_local": False,
+                                "recv": copy.deepcopy(init["recv"]), "args": [], "id": self._id(), "ty": q.get("ty"), "sp": list(init.get("sp") or sp)}
+                        for x in _walk(call["recv"]):
+                            if "id" in x:
+                                x["id"] = self._id()
+                        out.append({"k": "Let", "pat": q, "init": call, "sp": [sp[0], sp[1] + 0.001 * k_, sp[2], sp[3]]})
+                    ch = True
+                    self.stats["sin_cos_lets"] = self.stats.get("sin_cos_lets", 0) + 1
+                else:
+                    out.append(st)
+            if ch:
                 blk["stmts"] = out
 
     def if_let_try_from(self, body):
